@@ -3,13 +3,17 @@
 package c10
 
 import (
+	"context"
+	"encoding/json"
 	"errors"
 	"fmt"
+	"log/slog"
 	"strings"
 	"sync"
 	"time"
 
 	"go.uber.org/zap"
+	"go.uber.org/zap/exp/zapslog"
 	"go.uber.org/zap/verif/internal/ev"
 	"go.uber.org/zap/verif/internal/gen"
 	"go.uber.org/zap/verif/internal/jsonv"
@@ -200,6 +204,8 @@ func sinkFaults(r *ev.Run) {
 				total++
 				r.Eval(1)
 				r.Distinct(fmt.Sprintf("sf|%s|%d|%d", mode, k, vec))
+				errKind := (vec / 3) % 3
+				r.Count(fmt.Sprintf("sink_fault_vectors_with_error_values:%d", errKind), 1)
 				for e := 0; e < seqLen; e++ {
 					names := make([]string, k)
 					errs := make([]error, k)
@@ -212,7 +218,15 @@ func sinkFaults(r *ev.Run) {
 						names[j] = o
 						sinks[j].Reset()
 						sinks[j].Outcomes, sinks[j].SyncErrs = nil, nil
-						werr := fmt.Errorf("write-failed-dest%d-entry%d", j, e)
+						// error values: distinct pointers / values of a type that cannot be compared with == /
+						// one and the same sentinel value for every destination
+						var werr error = fmt.Errorf("write-failed-dest%d-entry%d", j, e)
+						switch errKind {
+						case 1:
+							werr = listErr{fmt.Sprintf("write-failed-dest%d-entry%d", j, e)}
+						case 2:
+							werr = errSentinel
+						}
 						switch o {
 						case "zero+err":
 							sinks[j].Outcomes, errs[j] = []rec.Outcome{{N: 0, Err: werr}}, werr
@@ -222,6 +236,9 @@ func sinkFaults(r *ev.Run) {
 							sinks[j].Outcomes, errs[j] = []rec.Outcome{{N: -1, Err: werr}}, werr
 						case "syncerr":
 							sinks[j].SyncErrs = []error{errors.New("sync-failed")}
+							if errKind == 1 {
+								sinks[j].SyncErrs = []error{listErr{"sync-failed"}, listErr{"sync-failed"}}
+							}
 						case "short+nil":
 							// a silent short write is nothing zap can see: whether it is reported is not judged,
 							// but it must not keep the entry from the other destinations
@@ -230,6 +247,12 @@ func sinkFaults(r *ev.Run) {
 						if mode != "multisyncer" {
 							if o == "failing-core" {
 								errs[j] = fmt.Errorf("core-failed-dest%d-entry%d", j, e)
+								switch errKind {
+								case 1:
+									errs[j] = listErr{fmt.Sprintf("core-failed-dest%d-entry%d", j, e)}
+								case 2:
+									errs[j] = errSentinel
+								}
 								cores = append(cores, failCore{zapcore.DebugLevel, errs[j], &coreCalls[j]})
 							} else {
 								cores = append(cores, zapcore.NewCore(zapcore.NewJSONEncoder(sinkCfg), sinks[j], zapcore.DebugLevel))
@@ -256,7 +279,7 @@ func sinkFaults(r *ev.Run) {
 					}
 					lg := zap.New(top, lopts...)
 					msg := fmt.Sprintf("entry-%d-%d-%d", k, vec, e)
-					wit := map[string]any{"mode": mode, "destinations": names, "entry": e, "level": lvl.String(), "stock_terminal_actions": realTerm, "development": dev}
+					wit := map[string]any{"mode": mode, "destinations": names, "entry": e, "level": lvl.String(), "stock_terminal_actions": realTerm, "development": dev, "error_values": []string{"distinct", "uncomparable type", "one shared sentinel"}[errKind]}
 					bad := func(class, f string, a ...any) {
 						r.Violate(ev.Violation{Case: id, Class: class, Msg: fmt.Sprintf("%s %v entry %d: ", mode, names, e) + fmt.Sprintf(f, a...), Witness: wit})
 					}
@@ -268,6 +291,10 @@ func sinkFaults(r *ev.Run) {
 						r.Count("sink_fault_entries_ending_in_a_real_panic", 1)
 					}
 					r.Count("sink_fault_entries", 1)
+					if p := ev.Guard(func() { _ = lg.Sync() }); p != "" {
+						bad("sink-fault-panic", "Logger.Sync panicked: %s", p)
+						break
+					}
 					anyErr := false
 					for j := range sinks {
 						if names[j] == "failing-core" {
@@ -295,10 +322,17 @@ func sinkFaults(r *ev.Run) {
 						if !strings.Contains(rep, "write error") {
 							bad("not-reported", "a destination failed but nothing was reported on the error output (got %q)", rep)
 						}
+						nfail := 0
 						for j, e2 := range errs {
+							if e2 != nil {
+								nfail++
+							}
 							if e2 != nil && !strings.Contains(rep, e2.Error()) {
 								bad("not-reported", "the failure of destination %d (%v) is not named on the error output (got %q)", j, e2, rep)
 							}
+						}
+						if errKind == 2 && strings.Count(rep, errSentinel.Error()) < nfail {
+							bad("not-reported", "%d destinations failed (each with the same error value) but the error output names %d failures (got %q)", nfail, strings.Count(rep, errSentinel.Error()), rep)
 						}
 					} else if strings.Contains(rep, "write error") {
 						hasSyncErr := false
@@ -321,12 +355,20 @@ func sinkFaults(r *ev.Run) {
 	r.Exhaustive(true)
 }
 
+// listErr is an error whose dynamic type cannot be compared with ==.
+type listErr []string
+
+func (e listErr) Error() string { return strings.Join(e, "; ") }
+
+var errSentinel = errors.New("shared-sentinel-failure")
+
 // Run is the C10 monitor.
 func Run(r *ev.Run) {
 	r.Rule = "field faults: for each seeded base case every fault-capable site (object/array marshaler error at a chosen position, panicking Stringer/error, unencodable reflected value, failing zap.Stringers element) is made to fail in turn, plus one multi-fault variant; the entry goes through a real Logger and its line is compared with 'all other fields intact plus <key>Error'; sink faults: every outcome vector over {ok, (0,err), (short,err), (full,err), (short,nil), sync error, failing core} for 1..3 (quick) / 4 (thorough) tee destinations and multi-syncer sinks, rotated over a sequence of entries; distinct = distinct (base, site) / vectors"
 	fieldFaults(r)
 	sinkFaults(r)
 	backgroundFlushFaults(r)
+	slogFaults(r)
 }
 
 // ---- a transient sink failure first seen by the background flush ---------------------------------
@@ -442,4 +484,110 @@ func clipB(b []byte) string {
 		return string(b[:300]) + "..."
 	}
 	return string(b)
+}
+
+// ---- hostile values arriving through the slog front end ------------------------------------------
+
+type nilStr struct{ s string }
+
+func (v nilStr) String() string { return v.s } // value receiver: a nil *nilStr panics
+
+type boomStr struct{}
+
+func (boomStr) String() string { panic("string-panics") }
+
+type nilErr struct{ s string }
+
+func (v nilErr) Error() string { return v.s }
+
+type boomErr struct{}
+
+func (boomErr) Error() string { panic("error-panics") }
+
+type boomObj struct{}
+
+func (boomObj) MarshalLogObject(zapcore.ObjectEncoder) error { return errors.New("object-fails") }
+
+// slogFaults: the same containment holds when the value comes in as a slog attribute - at top level,
+// inside a group, through Handler.WithAttrs, through Logger.With: the call returns, one line is
+// written, the attributes around the hostile one are intact and the hostile one is either rendered
+// as <nil> or named in <key>Error.
+func slogFaults(r *ev.Run) {
+	hostile := []struct {
+		name string
+		v    any
+	}{
+		{"nil pointer whose String panics", (*nilStr)(nil)},
+		{"Stringer that panics", boomStr{}},
+		{"nil pointer whose Error panics", (*nilErr)(nil)},
+		{"error that panics", boomErr{}},
+		{"object marshaler that fails", boomObj{}},
+	}
+	places := []string{"attribute", "attribute inside a group", "Handler.WithAttrs", "Logger.With", "WithGroup then attribute"}
+	for hi, h := range hostile {
+		for pi, place := range places {
+			id := fmt.Sprintf("c10/slog/%d/%d", hi, pi)
+			if !r.Want(id) {
+				continue
+			}
+			sink := &rec.Sink{}
+			core := zapcore.NewCore(zapcore.NewJSONEncoder(sinkCfg), sink, zapcore.DebugLevel)
+			before, bad, after := slog.Int("before", 1), slog.Any("bad", h.v), slog.String("after", "x")
+			inner := "" // the member the three attributes are expected under ("" = top level)
+			pn := ev.Guard(func() {
+				hd := slog.Handler(zapslog.NewHandler(core))
+				switch place {
+				case "attribute":
+					slog.New(hd).LogAttrs(context.Background(), slog.LevelInfo, "slog entry", before, bad, after)
+				case "attribute inside a group":
+					inner = "g"
+					slog.New(hd).LogAttrs(context.Background(), slog.LevelInfo, "slog entry", slog.Group("g", before, bad, after))
+				case "Handler.WithAttrs":
+					slog.New(hd.WithAttrs([]slog.Attr{before, bad, after})).Info("slog entry")
+				case "Logger.With":
+					slog.New(hd).With("before", 1, "bad", h.v, "after", "x").Info("slog entry")
+				default:
+					inner = "w"
+					slog.New(hd.WithGroup("w")).LogAttrs(context.Background(), slog.LevelWarn, "slog entry", before, bad, after)
+				}
+			})
+			r.Eval(1)
+			r.Count("slog_fault_cases", 1)
+			r.Distinct(fmt.Sprintf("slogfault|%d|%d", hi, pi))
+			fail := func(f string, a ...any) {
+				r.Violate(ev.Violation{Case: id, Class: "slog-fault-not-contained", Msg: fmt.Sprintf("slog %s = %s: ", place, h.name) + fmt.Sprintf(f, a...), Witness: map[string]any{"value": h.name, "place": place, "sink": string(sink.All())}})
+			}
+			if pn != "" {
+				fail("the logging call panicked: %s", pn)
+				continue
+			}
+			ws := sink.Writes()
+			if len(ws) != 1 {
+				fail("%d lines were written, want 1", len(ws))
+				continue
+			}
+			var top map[string]any
+			if err := json.Unmarshal(ws[0], &top); err != nil {
+				fail("the line is not valid JSON: %v: %q", err, ws[0])
+				continue
+			}
+			obj := top
+			if inner != "" {
+				o, ok := top[inner].(map[string]any)
+				if !ok {
+					fail("the group %q is missing from the entry %q", inner, ws[0])
+					continue
+				}
+				obj = o
+			}
+			if top["msg"] != "slog entry" || obj["before"] != float64(1) || obj["after"] != "x" {
+				fail("the message or the attributes around the hostile one are not intact: %q", ws[0])
+				continue
+			}
+			_, named := obj["badError"]
+			if obj["bad"] != "<nil>" && !named {
+				fail("the hostile attribute is neither rendered as <nil> nor named in badError: %q", ws[0])
+			}
+		}
+	}
 }
